@@ -233,6 +233,73 @@ def config_tie(tie, plugin, defs):
             if diffs:
                 tie["broken"].append("B5: the attribute-layer model reads the attributes differently from what the generator wrote: " + diffs[0])
                 tie["broken_details"].append({"rust_source": td.render(bare=True), "trait": t, "differences": diffs[:5]})
+        # Default: which value is built (type expression / struct / variant k / union field i), which fields carry
+        # an expression, and whether `new` is emitted
+        it = items.get("Default")
+        if it is not None and "typeexpr" in td.extra_json:
+            diffs = []
+            te = td.extra_json.get("typeexpr")
+            if te is not None:
+                want_head = "typeexpr"
+            elif td.kind == "struct":
+                want_head = "struct"
+            elif td.kind == "enum":
+                k = [j for j, v in enumerate(td.variants) if getattr(v, "dflag", False)]
+                want_head = "variant %d" % (k[0] if k else 0)
+            else:
+                fl = [j for j, f in enumerate(td.variants[0].fields) if f.req.get("Default", {}).get("flag") or f.req.get("Default", {}).get("expr") is not None]
+                want_head = "unionfield %d" % (fl[0] if fl else 0)
+            got_head = " ".join(it["head"][:2]) if it["head"] and it["head"][0] in ("variant", "unionfield") else (it["head"][0] if it["head"] else "")
+            if got_head != want_head:
+                diffs.append("built value: generator %s, model %s" % (want_head, got_head))
+            if te is None and td.kind in ("struct", "enum") and it["variants"]:
+                v = td.variants[0] if td.kind == "struct" else td.variants[int(want_head.split()[1])]
+                rows = it["variants"][0]["fields"]
+                if len(rows) == len(v.fields):
+                    for j, f in enumerate(v.fields):
+                        w = f.req.get("Default", {}).get("expr") is not None
+                        g = rows[j][1] != "none"
+                        if w != g:
+                            diffs.append("field %d: expression %s, model %s" % (j, w, g))
+                else:
+                    diffs.append("%d fields, model %d" % (len(v.fields), len(rows)))
+            if bool(td.extra_json.get("new")) != ("new" in items):
+                diffs.append("new(): generator %s, model %s" % (bool(td.extra_json.get("new")), "new" in items))
+            checked += 1
+            if diffs:
+                tie["broken"].append("B5: the attribute-layer model reads the Default attributes differently from what the generator wrote: " + diffs[0])
+                tie["broken_details"].append({"rust_source": td.render(bare=True), "trait": "Default", "differences": diffs[:5]})
+        # Into: per target the designated field of every variant (marked, else the sole field, else the unique field of
+        # that type), and whether a custom method is used
+        if "targets" in td.extra_json and td.kind != "union":
+            tynames = getattr(plugin, "type_names", None)
+            for tix in td.extra_json["targets"]:
+                if not tynames:
+                    break
+                it = items.get("Into<%s>" % tynames[tix])
+                if it is None:
+                    tie["broken"].append("B5: the attribute-layer model has no Into<%s> item" % tynames[tix])
+                    tie["broken_details"].append({"rust_source": td.render(bare=True)})
+                    continue
+                diffs = []
+                for k, v in enumerate(td.variants):
+                    marked = [(j, mk) for j, f in enumerate(v.fields) for mk in f.req.get("Into", {}).get("markers", []) if mk[0] == tix]
+                    if marked:
+                        want, meth = marked[0][0], marked[0][1][1] is not None
+                    elif len(v.fields) == 1:
+                        want, meth = 0, False
+                    else:
+                        same = [j for j, f in enumerate(v.fields) if f.req.get("Into", {}).get("ty") == tix]
+                        if len(same) != 1:
+                            continue
+                        want, meth = same[0], False
+                    cfg = it["variants"][k]["cfg"] if k < len(it["variants"]) else None
+                    if cfg is None or cfg[0] != str(want) or (cfg[1] != "none") != meth:
+                        diffs.append("variant %d target %s: generator field %d method %s, model %s" % (k, tynames[tix], want, meth, cfg))
+                checked += 1
+                if diffs:
+                    tie["broken"].append("B5: the attribute-layer model designates a different Into field: " + diffs[0])
+                    tie["broken_details"].append({"rust_source": td.render(bare=True), "trait": "Into", "differences": diffs[:5]})
     tie["extra"]["attribute_model_configs_compared"] = checked
     tie["rule"] = tie.get("rule", "") + ("; B5: the same definitions are expanded in-process and syn's records fed to the attribute-layer model "
                                         "(Expand.lean): per trait its per-field configuration (ignore / method / rank / rename / designated "
